@@ -187,7 +187,7 @@ impl W {
     /// no block of the current chain at that height); for every mined, positioned note, the
     /// verdict of the Merkle path the wallet produces at up to three retained checkpoints at or
     /// above its height.
-    pub fn project_trees(&mut self, chain: &Chain) -> Value {
+    pub fn project_trees(&mut self, chain: &Chain, salt: u64) -> Value {
         use incrementalmerkletree::Position;
         use shardtree::error::ShardTreeError;
         use zcash_client_backend::data_api::WalletCommitmentTrees;
@@ -236,7 +236,22 @@ impl W {
                 (cks, retained, notes)
             };
             let mut roots = vec![];
-            for h in &cks {
+            // all checkpoints while there are few; else the two oldest, the four newest and six picked by `salt`
+            let sample: Vec<u32> = if cks.len() <= 12 {
+                cks.clone()
+            } else {
+                let mut v: Vec<u32> = cks[..2].to_vec();
+                let mut x = salt.wrapping_mul(6364136223846793005).wrapping_add(1442695040888963407);
+                for _ in 0..6 {
+                    x = x.wrapping_mul(6364136223846793005).wrapping_add(1442695040888963407);
+                    v.push(cks[((x >> 33) as usize) % cks.len()]);
+                }
+                v.extend_from_slice(&cks[cks.len() - 4..]);
+                v.sort();
+                v.dedup();
+                v
+            };
+            for h in &sample {
                 let truth = chain.root_at(pool, *h);
                 let bh = BlockHeight::from(*h);
                 let got: Result<Result<Option<[u8; 32]>, String>, String> = {
@@ -258,7 +273,10 @@ impl W {
             }
             // witnesses: each mined, positioned note at the lowest, a middle and the highest checkpoint >= its height
             let mut wit = vec![];
-            for (n, pos, mined, cm) in &notes {
+            // at most eight notes per pool per projection (rotating with `salt`)
+            let nn = notes.len();
+            let chosen: Vec<&(i64, u64, Option<u32>, [u8; 32])> = if nn <= 8 { notes.iter().collect() } else { (0..8).map(|i| &notes[((salt as usize).wrapping_mul(7) + i * (nn / 8).max(1)) % nn]).collect() };
+            for (n, pos, mined, cm) in chosen {
                 let cands: Vec<u32> = cks.iter().copied().filter(|c| Some(*c) >= *mined).collect();
                 let mut picks = vec![];
                 if let Some(f) = cands.first() { picks.push(*f) }
